@@ -470,6 +470,18 @@ def bind_native_fun(environment, func, alias=None):
     add(environment, func, alias)
 
 
+def safe_math(fn, pos, *args):
+    try:
+        return fn(*args)
+    except (ValueError, OverflowError, ZeroDivisionError):
+        raise CklRuntimeError(
+            ValueString("ERROR"),
+            "Math error in " + fn.__name__
+            + "(" + ", ".join(str(arg) for arg in args) + ")",
+            pos,
+        )
+
+
 def get_os_version():
     return platform.release()
 
@@ -515,7 +527,9 @@ class FuncAcos(ValueFunc):
     def execute(self, args, environment, pos):
         if args.isNull("x"):
             return NULL
-        return ValueDecimal(math.acos(args.getNumerical("x").value))
+        return ValueDecimal(
+            safe_math(math.acos, pos, args.getNumerical("x").value)
+        )
 
 
 class FuncAdd(ValueFunc):
@@ -652,7 +666,9 @@ class FuncAsin(ValueFunc):
     def execute(self, args, environment, pos):
         if args.isNull("x"):
             return NULL
-        return ValueDecimal(math.asin(args.getNumerical("x").value))
+        return ValueDecimal(
+            safe_math(math.asin, pos, args.getNumerical("x").value)
+        )
 
 
 class FuncAtan(ValueFunc):
@@ -674,7 +690,9 @@ class FuncAtan(ValueFunc):
     def execute(self, args, environment, pos):
         if args.isNull("x"):
             return NULL
-        return ValueDecimal(math.atan(args.getNumerical("x").value))
+        return ValueDecimal(
+            safe_math(math.atan, pos, args.getNumerical("x").value)
+        )
 
 
 class FuncAtan2(ValueFunc):
@@ -1137,7 +1155,9 @@ class FuncCos(ValueFunc):
     def execute(self, args, environment, pos):
         if args.isNull("x"):
             return NULL
-        return ValueDecimal(math.cos(args.getNumerical("x").value))
+        return ValueDecimal(
+            safe_math(math.cos, pos, args.getNumerical("x").value)
+        )
 
 
 class FuncDate(ValueFunc):
@@ -1468,7 +1488,9 @@ class FuncExp(ValueFunc):
     def execute(self, args, environment, pos):
         if args.isNull("x"):
             return NULL
-        return ValueDecimal(math.exp(args.getNumerical("x").value))
+        return ValueDecimal(
+            safe_math(math.exp, pos, args.getNumerical("x").value)
+        )
 
 
 class FuncFileInput(ValueFunc):
@@ -2461,7 +2483,9 @@ class FuncLog(ValueFunc):
     def execute(self, args, environment, pos):
         if args.isNull("x"):
             return NULL
-        return ValueDecimal(math.log(args.getNumerical("x").value))
+        return ValueDecimal(
+            safe_math(math.log, pos, args.getNumerical("x").value)
+        )
 
 
 class FuncLower(ValueFunc):
@@ -2996,11 +3020,11 @@ class FuncPow(ValueFunc):
             y = args.getInt("y").value
             if y >= 0:
                 return ValueInt(x ** y)
-            return ValueInt(int(math.pow(x, y)))
+            return ValueInt(int(safe_math(math.pow, pos, x, y)))
         else:
             x = args.get("x").asDecimal().value
             y = args.get("y").asDecimal().value
-            return ValueDecimal(math.pow(x, y))
+            return ValueDecimal(safe_math(math.pow, pos, x, y))
 
 
 class FuncPrint(ValueFunc):
@@ -3595,7 +3619,9 @@ class FuncSin(ValueFunc):
     def execute(self, args, environment, pos):
         if args.isNull("x"):
             return NULL
-        return ValueDecimal(math.sin(args.getNumerical("x").value))
+        return ValueDecimal(
+            safe_math(math.sin, pos, args.getNumerical("x").value)
+        )
 
 
 class FuncSorted(ValueFunc):
@@ -3749,7 +3775,9 @@ class FuncSqrt(ValueFunc):
     def execute(self, args, environment, pos):
         if args.isNull("x"):
             return NULL
-        return ValueDecimal(math.sqrt(args.getNumerical("x").value))
+        return ValueDecimal(
+            safe_math(math.sqrt, pos, args.getNumerical("x").value)
+        )
 
 
 class FuncStartsWith(ValueFunc):
@@ -4089,7 +4117,9 @@ class FuncTan(ValueFunc):
     def execute(self, args, environment, pos):
         if args.isNull("x"):
             return NULL
-        return ValueDecimal(math.tan(args.getNumerical("x").value))
+        return ValueDecimal(
+            safe_math(math.tan, pos, args.getNumerical("x").value)
+        )
 
 
 class FuncTimestamp(ValueFunc):
